@@ -1,6 +1,7 @@
 package props
 
 import (
+	"bytes"
 	"fmt"
 	"os"
 	"testing"
@@ -27,6 +28,26 @@ func diffV6(rec *obs.Rec, b []byte) *obs.Fail {
 	}
 	if rec != nil {
 		rec.Class("ref:" + verdict.String() + "/lib:" + libV)
+	}
+	// the two typed entry points agree with the generic one: MessageFromBytes accepts exactly the accepted inputs
+	// whose type is not a relay type, RelayMessageFromBytes exactly those whose type is 12 or 13, with the same value
+	if len(b) > 0 {
+		relayType := b[0] == 12 || b[0] == 13
+		m, merr := dhcpv6.MessageFromBytes(append([]byte{}, b...))
+		r, rerr := dhcpv6.RelayMessageFromBytes(append([]byte{}, b...))
+		wantM, wantR := err == nil && !relayType, err == nil && relayType
+		if (merr == nil) != wantM {
+			return obs.Failf("C05/entry-points/message", fmt.Sprintf("MessageFromBytes accepts: %v (FromBytes error: %v, type %d)", wantM, err, b[0]), "error %v", merr)
+		}
+		if (rerr == nil) != wantR {
+			return obs.Failf("C05/entry-points/relay", fmt.Sprintf("RelayMessageFromBytes accepts: %v (FromBytes error: %v, type %d)", wantR, err, b[0]), "error %v", rerr)
+		}
+		if merr == nil && !bytes.Equal(m.ToBytes(), got.ToBytes()) {
+			return obs.Failf("C05/entry-points/message-value", "the same value as FromBytes", "encodings differ at byte %d", firstDiff(m.ToBytes(), got.ToBytes()))
+		}
+		if rerr == nil && !bytes.Equal(r.ToBytes(), got.ToBytes()) {
+			return obs.Failf("C05/entry-points/relay-value", "the same value as FromBytes", "encodings differ at byte %d", firstDiff(r.ToBytes(), got.ToBytes()))
+		}
 	}
 	switch verdict {
 	case refv6.Reject:
